@@ -103,6 +103,20 @@ structure Group (σ : Type) where
   coeffs : List Bytes          -- `PublicKey.Coefficients`, marshalled
   deriving DecidableEq, Repr
 
+/-- which expression of `asGroup` fills which field of the model's `Group` (same order as the Go literal);
+tied to the regenerated `Gen.asGroupFields` in DrandProofs/C06 -/
+def asGroupFieldMap : List (String × String) := [
+  ("ID", "details.BeaconID"),                      -- id
+  ("Threshold", "int(details.Threshold)"),         -- threshold
+  ("Period", "details.BeaconPeriod"),              -- periodSec
+  ("Scheme", "sch"),                               -- scheme        (sch = GetSchemeByID(details.SchemeID))
+  ("CatchupPeriod", "details.CatchupPeriod"),      -- catchupSec
+  ("GenesisTime", "details.GenesisTime.Unix()"),   -- genesisTime
+  ("GenesisSeed", "details.GenesisSeed"),          -- genesisSeed   (then the epoch-1 rule)
+  ("TransitionTime", "transitionTime"),            -- transitionTime
+  ("Nodes", "remainingNodes"),                     -- nodes         (ToKeyNode of sorted[v.Index] for v in finalNodes)
+  ("PublicKey", "keyShare.Public()")]              -- coeffs
+
 /-- `crypto.GetSchemeByID`: "" is the default scheme -/
 def schemeByID (id : String) : Option String :=
   let id' := if id = "" then Gen.defaultSchemeID else id
